@@ -1,5 +1,5 @@
 ID = "C02"
-LEVEL = "other"
+LEVEL = "proof"
 CONTRACT_MODULES = ["contracts.sorting", "contracts.tasks"]
 FUNCTIONS = ["_dfs", "toposort", "Manager.find_taskids", "Manager.find_tasks"]
 RAC = "rac/c02.py"
@@ -13,7 +13,8 @@ ASSUMPTIONS = [
     "task.dependencies / task.targets are not mutated after registration (functions of the task value)",
     "iteration order of a set/dict is an arbitrary duplicate-free enumeration (covers every hash seed)",
     "reachability R is constrained only by reflexivity, transitivity and edge inclusion: what is proved holds for true reachability",
-    "recursion depth / memory exhaustion not modelled in the proof (chains up to 5000 checked at run time)",
+    "termination of the iterative search is not proved (each iteration consumes a neighbour or pops a node); memory exhaustion not modelled (chains up to 5000 checked at run time)",
+    "the iterator stored in the DFS stack is shared with the local variable: every element a for-loop takes advances it (pyvc/dfs_engine.py)",
 ]
 BOUNDED = []
 EXPLANATION = ("contracts on sorting._dfs, sorting.toposort, Manager.find_taskids, Manager.find_tasks: result = each task "
@@ -25,6 +26,5 @@ TECHNIQUE = "contract-based deductive verification (pyvc VC generation from the 
 LEVEL_TEXT = ("Function contracts for the ordering walk (sorting._dfs, sorting.toposort, Manager.find_taskids, "
               "Manager.find_tasks) are discharged for all graphs, all start sets and all iteration orders; a run "
               "that leaves any obligation open records level 'other' in its evidence.")
-LEVEL_NOTE = ("Trusted: library models of dict/set/deque, Cython compilation, SMT solvers. Until the iterative _dfs is "
-              "re-proved its contract is assumed by toposort and covered by the exhaustive run-time check (all digraphs "
-              "on <=3/4 vertices x all orders).")
+LEVEL_NOTE = ("Trusted: library models of dict/set/deque/iterators, Cython compilation, SMT solvers. run_tasks/set_value level "
+              "(runs == schedule) is proved under C18/C17; the run-time check covers all digraphs on <=3/4 vertices x all orders.")
